@@ -15,6 +15,7 @@
 package ctfe
 
 import (
+	"bytes"
 	"context"
 	"crypto/sha256"
 	"errors"
@@ -183,6 +184,11 @@ func (s *indirectIssuanceChainService) getByHash(ctx context.Context, hash []byt
 	chain, err = s.storage.FindByKey(ctx, hash)
 	if err != nil {
 		return nil, err
+	}
+	// The storage is addressed by the hash of the chain, so a chain that does
+	// not hash to the key it was stored under has been corrupted.
+	if !bytes.Equal(issuanceChainHash(chain), hash) {
+		return nil, fmt.Errorf("issuance chain found for hash %x does not match the hash", hash)
 	}
 
 	// If there is any error from cache set, do not return the error because
